@@ -1,0 +1,62 @@
+//! Verification hooks: an event sink and named pause points.
+//!
+//! Compiled only with `--cfg open_coroutine_verif`. Nothing happens unless a
+//! harness installs a sink / pause handler, so the hooks are inert by default.
+use std::sync::atomic::{AtomicBool, AtomicU64, Ordering};
+use std::sync::RwLock;
+
+type Sink = Box<dyn Fn(u64, &str) + Send + Sync>;
+type Pause = Box<dyn Fn(&'static str) + Send + Sync>;
+
+static SEQ: AtomicU64 = AtomicU64::new(0);
+static ON: AtomicBool = AtomicBool::new(false);
+static PAUSE_ON: AtomicBool = AtomicBool::new(false);
+static SINK: RwLock<Option<Sink>> = RwLock::new(None);
+static PAUSE: RwLock<Option<Pause>> = RwLock::new(None);
+
+/// Install (or remove) the event sink. The sink receives a process-wide
+/// sequence number taken inside the hook and the event body (JSON members
+/// without the surrounding braces).
+pub fn set_sink(sink: Option<Sink>) {
+    let on = sink.is_some();
+    *SINK.write().expect("verif sink poisoned") = sink;
+    ON.store(on, Ordering::SeqCst);
+}
+
+/// Install (or remove) the pause handler.
+pub fn set_pause(pause: Option<Pause>) {
+    let on = pause.is_some();
+    *PAUSE.write().expect("verif pause poisoned") = pause;
+    PAUSE_ON.store(on, Ordering::SeqCst);
+}
+
+/// Returns `true` if a sink is installed.
+#[must_use]
+pub fn enabled() -> bool {
+    ON.load(Ordering::Relaxed)
+}
+
+/// Emit one event. `body` is evaluated only if a sink is installed.
+pub fn emit(body: impl FnOnce() -> String) {
+    if !ON.load(Ordering::Relaxed) {
+        return;
+    }
+    if let Ok(guard) = SINK.read() {
+        if let Some(sink) = guard.as_ref() {
+            let seq = SEQ.fetch_add(1, Ordering::SeqCst);
+            sink(seq, &body());
+        }
+    }
+}
+
+/// A named pause point; blocks for as long as the installed handler wants.
+pub fn pause(point: &'static str) {
+    if !PAUSE_ON.load(Ordering::Relaxed) {
+        return;
+    }
+    if let Ok(guard) = PAUSE.read() {
+        if let Some(pause) = guard.as_ref() {
+            pause(point);
+        }
+    }
+}
